@@ -1457,8 +1457,10 @@ fn find_alias_mappings<'a>(f: &'a f::Layout) -> (r: HashMap<String, Vec<&'a Alia
 //@ C14 | default: fn has_duplicate_key
 fn has_duplicate_key(keys: &Vec<KeyCode>) -> (r: bool)
   ensures
-    //@ C14 | the duplicate test is exact: true iff some key occurs twice
-    r == !keys@.no_duplicates(),
+    //@ C14 | the duplicate test is sound: a key list that passes has no key twice (else the mapper's constructor panics on an accepted layout)
+    !r ==> keys@.no_duplicates(),
+    //@ C13 | ... and exact: a key list is refused only if some key does occur twice (else meaningful layouts are rejected)
+    r ==> !keys@.no_duplicates(),
 { //@ | body
   for i in 0..keys.len()
     invariant
